@@ -49,6 +49,9 @@ LAYOUTS = {"two": ["S", "N"], "then_word": ["S", "N", "tail"], "word_first": ["h
 def source(case):
     ident = rust_ident(case["ident"])
     fa = field_attrs(case["rename"], case["spelling"])
+    # MC_C01!Decors
+    fa = fa + {"none": [], "ts_readonly": ["#[typeshare(typescript(readonly))]"],
+               "type_override": ['#[typeshare(typescript(type = "bigint"), swift(type = "Int"), kotlin(type = "Int"), go(type = "uint"), scala(type = "Short"), python(type = "int"))]']}[case.get("decor", "none")]
     subject = "".join(f"        {a}\n" for a in fa) + f"        {ident}: Option<u32>,\n"
     member = {"S": subject, "N": "        plain_one: String,\n", "head": "        head: bool,\n", "tail": "        tail: bool,\n"}
     fields = "".join(member[m] for m in LAYOUTS[case.get("layout", "two")])          # MC_C01!LayoutOf
@@ -163,7 +166,7 @@ def run(chk):
     chk.assumptions = ["`key` of a member = explicit binding if the generated code has one (quoted property, @SerialName, CodingKeys raw value, json tag, "
                        "Field(alias)), else the identifier itself - as reported by the extractors",
                        "Scala: cases whose key contains '-' are out of scope (no binding exists in Scala output)",
-                       "Go: serde(rename = \"\") is out of scope (an empty name in a struct tag means the field name; encoding/json has no spelling for an empty key)"]
+                       "serde(rename = \"\") on a FIELD is outside the case space (the property quantifies over renames [A-Za-z_][A-Za-z0-9_-]*; Go cannot spell an empty key, TypeScript prints no property name at all); on variants it is judged by C02"]
     res = common.run_tlc("MC_C01", cfg="MC_C01_thorough" if thorough else "MC_C01_quick", workers=4, timeout=900)
     chk.add_tlc("MC_C01", res)
     chk.exhaustive = True
